@@ -190,3 +190,59 @@ package syntax
 //@ immutable FunctionDeclareStmt CatchBlockPair FunctionReturnStmt ClassDeclareStmt PropertyDeclareStmt ThrowExceptionStmt
 //@ immutable PrimeExpr ID String ArrayExpr HashMapExpr HashMapKeyValuePair VarAssignExpr ObjNewExpr FuncCallExpr MemberExpr
 //@ immutable MemberMethodExpr LogicExpr ArithExpr
+
+// ---- a returned syntax tree is complete (C03): every construct has the parts the grammar requires ----
+// Asserted wherever the parser stores one of these fields / elements, assumed wherever an evaluator loads one.
+//@ eleminv Statement nonnil
+//@ eleminv Expression nonnil
+//@ eleminv *ID nonnil
+//@ eleminv *StmtBlock nonnil
+//@ eleminv *CatchBlockPair nonnil
+//@ eleminv *ImportStmt nonnil
+//@ eleminv *FuncCallExpr nonnil
+//@ eleminv *FunctionDeclareStmt nonnil
+//@ eleminv *PropertyDeclareStmt nonnil
+//@ fieldinv VDAssignPair.AssignExpr nonnil
+//@ fieldinv BranchStmt.IfTrueExpr nonnil
+//@ fieldinv BranchStmt.IfTrueBlock nonnil
+//@ fieldinv WhileLoopStmt.TrueExpr nonnil
+//@ fieldinv WhileLoopStmt.LoopBlock nonnil
+//@ fieldinv IterateStmt.IterateExpr nonnil
+//@ fieldinv IterateStmt.IterateBlock nonnil
+//@ fieldinv ImportStmt.ImportName nonnil
+//@ fieldinv ExecBlock.StmtBlock nonnil
+//@ fieldinv FunctionDeclareStmt.Name nonnil
+//@ fieldinv FunctionDeclareStmt.ExecBlock nonnil
+//@ fieldinv CatchBlockPair.ExceptionClass nonnil
+//@ fieldinv CatchBlockPair.StmtBlock nonnil
+//@ fieldinv FunctionReturnStmt.ReturnExpr nonnil
+//@ fieldinv ClassDeclareStmt.ClassName nonnil
+//@ fieldinv PropertyDeclareStmt.PropertyID nonnil
+//@ fieldinv PropertyDeclareStmt.InitValue nonnil
+//@ fieldinv ThrowExceptionStmt.ExceptionClass nonnil
+//@ fieldinv HashMapKeyValuePair.Key nonnil
+//@ fieldinv HashMapKeyValuePair.Value nonnil
+//@ fieldinv VarAssignExpr.TargetVar nonnil
+//@ fieldinv VarAssignExpr.AssignExpr nonnil
+//@ fieldinv ObjNewExpr.ClassName nonnil
+//@ fieldinv FuncCallExpr.FuncName nonnil
+//@ fieldinv MemberMethodExpr.Root nonnil
+//@ fieldinv LogicExpr.LeftExpr nonnil
+//@ fieldinv LogicExpr.RightExpr nonnil
+//@ fieldinv ArithExpr.LeftExpr nonnil
+//@ fieldinv ArithExpr.RightExpr nonnil
+
+//@ typeinv BranchStmt len(self.OtherExprs) == len(self.OtherBlocks) && (self.HasElse ==> self.IfFalseBlock != nil)
+
+//@ iface Statement.GetCurrentLine(self) (l)
+//@   pure
+//@ iface Expression.GetCurrentLine(self) (l)
+//@   pure
+//@ method (*StmtBase).GetCurrentLine
+//@   pure
+//@   ensures result == s.currentLine
+//@ method (*ExprBase).GetCurrentLine
+//@   pure
+//@   ensures result == e.currentLine
+
+//@ typeinv MemberExpr (self.RootType == RootTypeExpr ==> self.Root != nil) && (self.RootType == RootTypeProp ==> self.MemberID != nil) && (self.MemberType == MemberID ==> self.MemberID != nil) && (self.MemberType == MemberIndex ==> self.MemberIndex != nil)
